@@ -193,17 +193,33 @@ def _is0(i):
     return isinstance(i, int) and i == 0
 
 
+# float32 mode (opt-in, integer-valued operands only): Num.f32 marks a value numba types as float32; a sum or difference
+# of two such values is rounded to float32 (round-half-even); mixed float32/float64 arithmetic is float64 (exact here)
+F32 = {'on': False, 'rounded': 0}
+_B24 = 1 << 24
+
+
+def rnd32_int(d):
+    """float32 rounding of an integer d with |d| <= 2^25 (z3 Int term or python int): exact up to 2^24, beyond
+    that the nearest even integer, ties to the one whose half is even"""
+    if not z3.is_expr(d):
+        d = z3.IntVal(int(d))
+    q = d / 2                       # floor division for Int terms
+    up = z3.If(q % 2 == 0, 2 * q, 2 * q + 2)
+    return z3.If(z3.And(d >= -_B24, d <= _B24), d, z3.If(d % 2 == 1, up, d))
+
+
 class Num:
     """symbolic float: v (z3 arith term or python number), nan (bool | z3 Bool), inf (0 | +-1 | z3 Int)
 
     The value is `nan` if nan, `inf*infinity` if inf != 0, else v.  Comparisons follow IEEE 754.
     """
-    __slots__ = ('v', 'nan', 'inf')
+    __slots__ = ('v', 'nan', 'inf', 'f32')
 
-    def __init__(self, v, nan=False, inf=0):
+    def __init__(self, v, nan=False, inf=0, f32=False):
         if isinstance(nan, SBool):
             nan = nan.t
-        self.v, self.nan, self.inf = v, nan, inf
+        self.v, self.nan, self.inf, self.f32 = v, nan, inf, f32
 
     def __repr__(self):
         return f"Num({self.v}, nan={self.nan}, inf={self.inf})"
@@ -236,6 +252,12 @@ class Num:
         if not (_is0(self.inf) and _is0(oi)):
             return self._bin_inf(Num(ov, on, oi), kind)
         nan = Or(wrapb(self.nan), wrapb(on))
+        if F32['on'] and self.f32 and isinstance(o, Num) and o.f32:
+            # numba types float32 (op) float32 as float32: the result is rounded to 24 significant bits
+            if kind in ('add', 'sub', 'rsub'):
+                F32['rounded'] += 1
+                return Num(rnd32_int(f(self.v, ov)), nan, 0, True)
+            raise Unsupported(f"float32 {kind} float32 (only sums and differences of float32 operands are modelled)")
         return Num(f(self.v, ov), nan)
 
     def _sign(self):
@@ -298,7 +320,7 @@ class Num:
     def __rtruediv__(self, o): return self._bin(o, lambda a, b: Num._div(b, a), 'rdiv')
 
     def __neg__(self):
-        return Num(-self.v, self.nan, -self.inf)
+        return Num(-self.v, self.nan, -self.inf, self.f32)
 
     def __pos__(self):
         return self
@@ -413,7 +435,8 @@ def ite(c, a, b):
             return a
         av, an, ai = Num.parts(a)
         bv, bn, bi = Num.parts(b)
-        return Num(_itev(c, av, bv), _iteb(c, an, bn), _itev(c, ai, bi) if not (_is0(ai) and _is0(bi)) else 0)
+        return Num(_itev(c, av, bv), _iteb(c, an, bn), _itev(c, ai, bi) if not (_is0(ai) and _is0(bi)) else 0,
+                   isinstance(a, Num) and isinstance(b, Num) and a.f32 and b.f32)
     if isinstance(a, tuple) and isinstance(b, tuple) and len(a) == len(b):
         return tuple(ite(c, x, y) for x, y in zip(a, b))
     if isinstance(a, list) and isinstance(b, list) and len(a) == len(b):
